@@ -22,7 +22,7 @@ const (
 	protocolOfflineID                  = "cmp/presign-offline"
 	protocolOnlineID                   = "cmp/presign-online"
 	protocolFullID                     = "cmp/presign-full"
-	protocolOfflineRounds round.Number = 7
+	protocolOfflineRounds round.Number = 8 // output after round 7; the identifiable-abort round abort2 is round 8
 	protocolFullRounds    round.Number = 8
 )
 
